@@ -140,6 +140,7 @@ class MidiTrack(object):
     def set_instrument(self, channel, instr, bank=1):
         """Add a program change and bank select event to the track_data."""
         self.track_data += self.select_bank(channel, bank)
+        self.set_deltatime(0)
         self.track_data += self.program_change_event(channel, instr)
 
     def header(self):
